@@ -1,8 +1,7 @@
 """C17 - blacklist-aware genome tiling is an exact partition with contained fetch windows.
 
 Space: EVERY region [a,b) with 0<=a<b<=R, every bin size 1..R+2, fragment size in {None,0,1,2,R},
-every blacklist of <= K half-open intervals with endpoints in -1..R+1 (sorted, as the callers pass
-them), on the real blacklisted_binning; plus fill_range / trim_rangelist / merge_overlapping_ranges /
+every blacklist of <= K half-open intervals with endpoints in -1..R+1 (two intervals in both orders), on the real blacklisted_binning; plus fill_range / trim_rangelist / merge_overlapping_ranges /
 bp_chunked / blacklisted_binning_contigs on their own complete small spaces.
 Oracle: the property statement itself, evaluated with bitsets.
 """
@@ -16,7 +15,7 @@ RULE = ('exhaustive product region x bin size x fragment size x blacklist (all s
         '-1..R+1) on the real blacklisted_binning; a case is non-trivial when the blacklist intersects the '
         'region and at least two bins are produced; states = distinct cases')
 ASSUMPTIONS = [
-    'blacklist intervals are half-open [start,end) with start<end, passed sorted (as blacklisted_binning_contigs does)',
+    'blacklist intervals are half-open [start,end) with start<end; two-interval blacklists are passed in both orders, three-interval ones sorted',
     'bin size >= 1, fragment size >= 0',
 ]
 
@@ -130,6 +129,8 @@ def run_shard(shard, tier, acc):
         bls = [()]
         for k in range(1, K + 1):
             bls.extend(itertools.combinations(ivs, k))   # combinations of a sorted list are sorted
+        # the function does not require a sorted blacklist (it merges and sorts itself): two intervals also in reverse order
+        bls.extend((b, a) for a, b in itertools.combinations(ivs, 2))
         for bin_size in range(1, R + 3):
             for frag in _frag_sizes(R):
                 for bl in bls:
